@@ -161,12 +161,13 @@ package database
 //@ pure func resultsOK(db *Database, r []SearchResult) bool = allInDB(db, r) && distinctCmds(r) && nonneg(r)
 
 //@ func (*Database).collectResults
-//@   requires scores != nil && (forall d int :: (d in scores) ==> 0 <= d && d < len(db.Commands) && scores[d] >= 0.0)
+//@   requires scoresOK(db, scores, options)
 //@   modifies nothing
 //@   ensures[C01.collect-ok] fresh(result) && len(result) == len(scores) && resultsOK(db, result)
+//@   ensures[C04.collect-gates] gatesOK(result, options)
 //@   ensures[C04.collect-from-scores] forall k int :: 0 <= k && k < len(result) ==> (cmdIdx(db, result[k].Command) in scores)
 //@ loop 1
-//@   invariant fresh(results) && len(results) == $n
+//@   invariant fresh(results) && len(results) == $n && gatesOK(results, options)
 //@   invariant forall k int :: 0 <= k && k < len(results) ==> inDB(db, results[k].Command) && results[k].Score >= 0.0 && (cmdIdx(db, results[k].Command) in scores) && (cmdIdx(db, results[k].Command) in $visited)
 //@   invariant distinctCmds(results)
 
